@@ -85,6 +85,11 @@ def gen(chk, binary, tier):
         e_.append(sc)
     cc.refine_scripts(binary, e_, [["G", "G", "L", "g"], ["L", "G", "W"]], rng, adder=cc.add_first_boundary_probes)
     streams.append(("expiry-beyond-2^62", e_))
+    # (f) several caches in ONE process with different option lists (defaults omitted), concurrently, often the same keys:
+    #     every window of every cache is the window of ITS OWN expiries
+    f_ = cc.multi_scripts(rng, 120 if quick else 1200, nacts=(3, 8), horizon_mult=8)
+    cc.refine_scripts(binary, f_, [["L", "G", "g"], ["G", "g", "W"]], rng)
+    streams.append(("several-caches-one-process", f_))
     return streams
 
 
@@ -152,7 +157,7 @@ def run(chk):
                        "class of every returned Future, job created <=> loader invocation, pair and virtual resolution instant of every Get. "
                        "Probes are placed by re-running the script and adding calls at u+E-1,u+E,u+E+1,u+2E-1,u+2E,u+2E+1 of observed completions u. "
                        "non-trivial = at least one call exactly at such a boundary; distinct = distinct script line")
-    chk.run_proof_gate(cc.PROOFS + ["models/CacheStatus64.v", "proofs/CacheStatus64Proofs.v"])
+    chk.run_proof_gate(cc.PROOFS + ["models/CacheStatus64.v", "proofs/CacheStatus64Proofs.v", "models/CacheGet1.v", "proofs/CacheGet1Proofs.v"])
     try:
         # step-level stream of C04 (cooperative scheduler on the cachex hooks): the part with clock ticks inside the
         # calls and the regression schedules, with the C05 monitor "Get2 (nil, nil) while the key is servable"
@@ -196,21 +201,14 @@ def search(chk):
         return
     chk.rng = chk.rng.fork()
     for name, scripts in gen(chk, binary, "quick"):
-        outs = cc.run_ft(binary, [s.line() for s in scripts])
-        for sc, out in zip(scripts, outs):
-            if out.startswith("PANIC"):
-                chk.monitor_fail("panic", sc.line(), out[:500], out[:300])
-                continue
-            for log in cc.split_trials(out):
-                mf = cc.monitor_c05(sc, log)
-                if mf:
-                    chk.monitor_fail(mf[0], sc.line(), log.text[:3000], mf[1])
+        cc.expected_configs(chk, scripts)
+        cc.monitor_items(chk, binary, scripts, cc.monitor_c05)
 
 
 def replay(chk, path):
     rep = json.load(open(path))
     binary = cc.build_ft(chk)
-    cases = [x["case"] for x in rep.get("failing_inputs", []) + rep.get("divergences", []) if isinstance(x.get("case"), str) and x["case"].startswith("ftc")]
+    cases = [x["case"] for x in rep.get("failing_inputs", []) + rep.get("divergences", []) if isinstance(x.get("case"), str) and x["case"].startswith(("ftc", "ftm"))]
     scripts = [cc.parse_line(c) for c in cases]
     cc.check_batch(chk, binary, "replay", scripts, cc.monitor_c05)
     bad = len(chk.divergences) + len(chk.monitor_failures)
